@@ -163,6 +163,10 @@ def extra(c):
     d.update(huge_c_array(c))
     import cabi_sessions
     d.update(cabi_sessions.cabi_sessions(c))
+    # the bulk operations on IEEE special values (signed zeros, NaN, infinities, degenerate value sets) over every combination
+    # of Go- and C-backed operands: "observationally identical" includes the sign of a zero and whether a NaN arrives
+    import fpspecial
+    d.update(fpspecial.fp_specials(c))
     return d
 
 
